@@ -9,6 +9,7 @@ res = json.load(open(rj)) if os.path.exists(rj) else {}
 def verdict(rc, kind):
     if rc == "exit=1" and kind == "failing-input": return "caught (failing input)"
     if rc == "exit=1" and kind == "no-input": return "caught (no-failing-input-found)"
+    if rc == "exit=1": return "caught (kind not recorded)"
     if rc == "exit=0": return "MISSED"
     return "not run (" + rc + ")"
 for f in sys.argv[1:]:
